@@ -19,7 +19,8 @@ META = {
                   "frame widths <= 64; numbers over their full legal range.",
     "explanation": "symbolic execution of add_to_frame / from_frame / instance_from_frame / __eq__ on "
                    "symbolic frames and numbers; obligations are unsat queries per path",
-    "bounds": ["all 2^16 / 2^24 frames (symbolic)", "all legal address / group / instance numbers (symbolic)",
+    "bounds": ["address decode from ForwardFrame, plain Frame and concatenated frames of the same bits",
+               "all 2^16 / 2^24 frames (symbolic)", "all legal address / group / instance numbers (symbolic)",
                "wrong widths 1..64 (quick: 1..32)", "ReservedInstance objects (what reserved instance bytes decode to): refusal of wrong sizes and exact write-back", "write histories: the writers' slices written into frames of other widths first", "decode histories: a symbolic frame of another width "
                "(9/12/16/17/20/24/32 bits) decoded first", "all ordered pairs of the 8 address kinds and of the "
                "10 instance kinds + ReservedInstance"],
